@@ -111,11 +111,27 @@ _VECS = None
 _TOKS = None
 
 
+def near_tokens(major, vec):
+    """Score tokens derived from the vector's own (model) base score: near misses that a tolerant
+    or rounding comparison would wrongly accept, and other spellings of the exact score."""
+    if T.classify_class(major, vec) != "ACCEPT":
+        return []
+    fam = T.family_of(major, vec)
+    b = base_tenths(fam, dict(T.parse(fam, vec)[1]))
+    whole, tenth = divmod(b, 10)
+    exact = "%d.%d" % (whole, tenth)
+    out = [exact + "4", exact + "5", exact + "49", exact + "0000000001", exact + "00", exact + "e0",
+           "%d.%d96" % divmod(b - 1, 10) if b > 0 else "0.04", "%d.%d5" % divmod(b - 1, 10) if b > 0 else "0.05",
+           "%d" % whole, "%d" % (whole + 1), "0" + exact, "+" + exact, exact + "e-0", "%d.%de1" % (0, whole) if tenth == 0 else exact]
+    return out
+
+
 def _acc_task(t):
     major, lo, hi, toks_key = t
     acc = sweep.new_acc()
-    toks = _TOKS[toks_key]
+    toks0 = _TOKS[toks_key]
     for vec in _VECS[(major, toks_key)][lo:hi]:
+        toks = toks0 + near_tokens(major, vec)
         for tok in toks:
             text = tok + "/" + vec
             acc["n"] += 1
